@@ -116,7 +116,14 @@ def load_findings() -> list[dict]:
     if not os.path.exists(path):
         return []
     with open(path) as f:
-        return json.load(f)["findings"]
+        out = json.load(f)["findings"]
+    frag = os.path.join(VERIF, "known_findings.d")  # per-property fragments (development only)
+    if os.path.isdir(frag):
+        for name in sorted(os.listdir(frag)):
+            if name.endswith(".json"):
+                with open(os.path.join(frag, name)) as f:
+                    out += json.load(f)["findings"]
+    return out
 
 
 def lib_frame(tb) -> str | None:
@@ -153,6 +160,7 @@ class Ctx:
         self.exhaustive = True
         self.findings = [f for f in load_findings() if f["property"] == pid]
         self.replay_mode = False
+        self.no_evidence = False
 
     # ---- coverage ------------------------------------------------------------------
     def tick(self, n: int = 1):
@@ -270,7 +278,7 @@ class Ctx:
             self.known_hits[sig] = rec
             return
         if not self.replay_mode:
-            d = os.path.join(VERIF, "replays", self.pid)
+            d = os.path.join(os.environ.get("VERIF_REPLAY_DIR", os.path.join(VERIF, "replays")), self.pid)
             os.makedirs(d, exist_ok=True)
             path = os.path.join(d, chash(sig) + ".json")
             with open(path, "w") as f:
@@ -314,7 +322,7 @@ class Ctx:
             "wall_s": round(wall, 2),
             "violations": len(self.violations),
         }
-        if not self.replay_mode:
+        if not self.replay_mode and not self.no_evidence:
             d = os.path.join(VERIF, "evidence")
             os.makedirs(d, exist_ok=True)
             with open(os.path.join(d, f"{self.pid}.json"), "w") as f:
@@ -358,6 +366,7 @@ def main(argv=None) -> int:
     ap.add_argument("--tier", default=os.environ.get("VERIF_TIER", "quick"))
     ap.add_argument("--seed", type=int, default=int(os.environ.get("VERIF_SEED", "0") or 0))
     ap.add_argument("--replay", default=None)
+    ap.add_argument("--no-evidence", action="store_true", help="do not rewrite evidence/<id>.json (mutation sweeps)")
     args = ap.parse_args(argv)
     pid = args.prop.upper()
     tier = args.tier if args.tier in ("quick", "thorough") else "quick"
@@ -365,6 +374,7 @@ def main(argv=None) -> int:
         setup_runtime()
         mod = importlib.import_module(f"mc.props.{pid.lower()}")
         ctx = Ctx(pid, tier, args.seed, mod.LEVEL, mod.CLAUSES)
+        ctx.no_evidence = args.no_evidence
         if args.replay:
             ctx.replay_mode = True
             with open(args.replay) as f:
